@@ -102,10 +102,7 @@ Proof.
       * split; [destruct e100; unfold rejs; cbn; intuition congruence|].
         right. split; [destruct e100; unfold rejq; cbn; intuition congruence|]. split; [exact X3|].
         right; left. rewrite X4. split; auto. destruct e100; reflexivity.
-      * assert (SC : server_content c3 = []).
-        { unfold server_content. revert K3. clear. induction c3 as [|x r IH]; cbn; auto.
-          destruct x; cbn; auto. destruct p; cbn; auto; try discriminate.
-          intros. discriminate. }
+      * assert (SC : server_content c3 = []) by (apply no_server_send_no_content; exact K3).
         split; [unfold rejs in *; destruct e100; cbn; intuition congruence|].
         right. split; [unfold rejq in *; destruct e100; cbn; intuition congruence|]. split; [exact X3|].
         right; right. rewrite X4. split; auto. destruct e100; cbn; auto.
@@ -115,5 +112,385 @@ Proof.
       right. split; [destruct e100; unfold rejq; cbn; intuition congruence|].
       split; [destruct s2; reflexivity|]. left. split; [destruct s2; reflexivity|]. destruct e100; reflexivity.
 Qed.
+
+(* ... and nothing of a response is sent to the client by it *)
+Lemma step_wait_request_headers_cc (s s' : st) fr e100 c :
+  client_state s = WaitHeaders -> request_body_buf s = [] ->
+  handle_event s (ReqHeaders fr e100) = Some (s', c) -> client_content c = [].
+Proof.
+  intros Hc Hb. unfold HttpBody.handle_event. cbn [is_request_event]. rewrite Hc.
+  unfold state_wait_for_request_headers.
+  remember (set_live S (set_req_framing S s fr) true) as s0 eqn:E0.
+  assert (B0 : request_body_buf s0 = []) by (subst s0; destruct s; cbn in *; auto). clear E0.
+  destruct (if end_stream_of fr then Some (false, s0, [])
+            else check_body_size true s0) as [[[b s1] c1]|] eqn:EC; [|discriminate].
+  assert (CC : client_content c1 = []).
+  { destruct (end_stream_of fr).
+    - inversion EC; subst. reflexivity.
+    - apply check_body_size_req_cases in EC.
+      destruct EC as [(-> & -> & -> & _)|[(-> & _ & -> & ->)|[(-> & -> & -> & _)|(_ & NE & _)]]]; auto.
+      + pose proof (abort_body_req s0) as AB. destruct (abort_body true s0) as [sa ca]. cbn [fst snd].
+        destruct AB as (_ & _ & _ & _ & _ & _ & _ & A8 & _). exact A8.
+      + rewrite B0 in NE. discriminate. }
+  destruct b.
+  - intros H; inversion H; subst. exact CC.
+  - destruct (stream_truthy (req_stream (hook_requestheaders S cfg s1)) && negb (end_stream_of fr)).
+    + destruct (HttpBody.start_request_stream S cfg (hook_requestheaders S cfg s1)) as [s3 c3] eqn:ES.
+      pose proof (start_request_stream_spec S fq fs cfg _ _ _ ES) as (_ & _ & _ & _ & _ & _ & _ & _ & _ & _ & CS).
+      intros H; inversion H; subst; clear H.
+      rewrite client_content_app, CC. cbn [app].
+      destruct CS as [(_ & _ & _ & ->)|(_ & _ & _ & _ & _ & _ & K7)].
+      * destruct e100; reflexivity.
+      * change (client_content (CHook HRequestHeaders :: (if e100 then [CSend Client MContinue] else []) ++ c3))
+          with (client_content ((if e100 then [CSend Client MContinue] else []) ++ c3)).
+        rewrite client_content_app. destruct e100; cbn; exact K7.
+    + intros H; inversion H; subst; clear H. rewrite client_content_app, CC. destruct e100; reflexivity.
+Qed.
+
+(* ReqData in state_consume_request_body *)
+Lemma step_consume_request_data (s s' : st) d c :
+  client_state s = Consume ->
+  handle_event s (ReqData d) = Some (s', c) ->
+  let buf := request_body_buf s ++ d in
+  response_body_buf s' = response_body_buf s /\ ~ rejs c /\ client_content c = []
+  /\ ((client_state s' = Consume /\ request_body_buf s' = buf /\ c = [] /\ server_state s' = server_state s
+       /\ (nonempty buf = true -> truthy_opts = true -> over (parse_size (o_limit cfg)) (blen buf) = false))
+      \/ (client_state s' = Errored /\ rejq c /\ server_content c = [] /\ request_body_buf s' = buf
+          /\ server_state s' = server_state s /\ flow_error s' = true /\ flow_live s' = false
+          /\ exists x, 0 < x /\ over (parse_size (o_limit cfg)) x = true)
+      \/ (client_state s' = Streaming /\ ~ rejq c /\ server_state s' = server_state s
+          /\ request_body_buf s' = (if o_store cfg then buf else [])
+          /\ c = [CGetConn; CSend Server (MHeaders false); CSend Server (MData buf)]
+          /\ req_stream s' = STrue /\ fq_st s' = fq_st s /\ req_content s' = req_content s
+          /\ nonempty buf = true /\ over (parse_size (o_limit cfg)) (blen buf) = false
+          /\ over (parse_size (o_stream cfg)) (blen buf) = true)
+      \/ (client_state s' = Errored /\ ~ rejq c /\ server_content c = [] /\ request_body_buf s' = []
+          /\ c_ok cfg = false /\ server_state s' = Errored)).
+Proof.
+  intros Hc. unfold HttpBody.handle_event. cbn [is_request_event]. rewrite Hc.
+  unfold state_consume_request_body.
+  remember (set_reqbuf S s (request_body_buf s ++ d)) as s0 eqn:E0.
+  assert (B0 : request_body_buf s0 = request_body_buf s ++ d) by (subst s0; destruct s; reflexivity).
+  assert (R0 : response_body_buf s0 = response_body_buf s) by (subst s0; destruct s; reflexivity).
+  assert (S0 : server_state s0 = server_state s) by (subst s0; destruct s; reflexivity).
+  assert (C0 : client_state s0 = Consume) by (subst s0; destruct s; cbn in *; auto).
+  assert (F0 : fq_st s0 = fq_st s /\ req_content s0 = req_content s) by (subst s0; destruct s; cbn; auto).
+  clear E0.
+  destruct (check_body_size true s0) as [[[b s1] c1]|] eqn:EC; [|discriminate].
+  intros H; inversion H; subst s1 c1; clear H. cbn zeta.
+  apply check_body_size_req_cases in EC.
+  destruct EC as [(-> & -> & -> & SIDE)|[(-> & E & -> & ->)|[(-> & -> & -> & x & EX & POS & OV)|(-> & NE & OL & OT & s2 & c2 & ES & CS)]]].
+  - split; [auto|]. split; [unfold rejs; cbn; tauto|]. split; [reflexivity|].
+    left. repeat split; auto. intros NE TR. unfold req_expected in SIDE. rewrite B0, NE in SIDE.
+    apply (SIDE _ eq_refl); auto. apply nonempty_true_blen; auto.
+  - split; [destruct s0; cbn in *; auto|]. split; [unfold rejs; cbn; tauto|]. split; [reflexivity|].
+    left. rewrite B0 in E. rewrite E. repeat split; try (destruct s0; cbn in *; congruence).
+  - pose proof (abort_body_req s0) as AB. destruct (abort_body true s0) as [sa ca]. cbn [fst snd].
+    destruct AB as (A1 & A2 & A3 & A4 & A5 & A6 & A7 & A8 & A9 & A10).
+    split; [congruence|]. split; [auto|]. split; [auto|].
+    right; left. repeat split; auto; try congruence. exists x. auto.
+  - pose proof (start_request_stream_spec S fq fs cfg _ _ _ ES) as (P1 & P2 & P3 & P4 & P5 & _ & _ & _ & _ & _ & PS).
+    destruct F0 as [F1 F2].
+    assert (Y1 : response_body_buf s2 = response_body_buf s) by (rewrite P2; destruct s0; cbn in *; auto).
+    assert (Y3 : req_stream s2 = STrue) by (rewrite P3; destruct s0; reflexivity).
+    assert (Y4 : fq_st s2 = fq_st s) by (rewrite P4; destruct s0; cbn in *; auto).
+    assert (Y5 : req_content s2 = req_content s) by (rewrite P5; destruct s0; cbn in *; auto).
+    assert (Y6 : request_body_buf s2 = []) by (rewrite P1; destruct s0; reflexivity).
+    rewrite B0 in *.
+    destruct CS as [(K1 & -> & ->)|(K1 & -> & ->)].
+    + destruct PS as [(_ & _ & Q3 & ->)|(_ & Q2 & _)]; [|congruence].
+      assert (Y7 : server_state s2 = server_state s) by (rewrite Q3; destruct s0; cbn in *; auto).
+      split; [destruct (o_store cfg); destruct s2; cbn in *; auto|].
+      split; [unfold rejs; cbn; intuition congruence|]. split; [reflexivity|].
+      right; right; left.
+      split; [destruct (o_store cfg); destruct s2; cbn in *; auto|].
+      split; [unfold rejq; cbn; intuition congruence|].
+      split; [destruct (o_store cfg); destruct s2; cbn in *; auto|].
+      split; [destruct (o_store cfg); destruct s2; cbn in *; auto|].
+      split; [reflexivity|].
+      repeat split; auto; destruct (o_store cfg); destruct s2; cbn in *; auto.
+    + destruct PS as [(_ & Q2 & _)|(Q1 & _ & Q3 & Q4 & Q5 & Q6 & Q7)]; [congruence|].
+      split; [auto|]. split; [auto|]. split; [exact Q7|].
+      right; right; right; repeat split; auto; apply no_server_send_no_content; auto.
+Qed.
+
+Lemma not_in_map_data p ds x :
+  (forall d, x <> CSend p (MData d)) -> ~ In x (map (fun c => CSend p (MData c)) ds).
+Proof. intros H. induction ds; cbn; auto. intros [E|E]; auto. symmetry in E. eapply H; eauto. Qed.
+
+(* ReqEom in state_consume_request_body *)
+Lemma step_consume_request_eom (s s' : st) c :
+  client_state s = Consume ->
+  handle_event s ReqEom = Some (s', c) ->
+  response_body_buf s' = response_body_buf s /\ ~ rejs c /\ ~ rejq c /\ client_content c = []
+  /\ request_body_buf s' = [] /\ client_state s' = Done
+  /\ req_content s' = Some (request_body_buf s)
+  /\ (c_ok cfg = true -> server_state s' = server_state s
+      /\ data_to Server c = (if nonempty (request_body_buf s) then [request_body_buf s] else []))
+  /\ (c_ok cfg = false -> server_state s' = Errored /\ server_content c = []).
+Proof.
+  intros Hc. unfold HttpBody.handle_event. cbn [is_request_event]. rewrite Hc.
+  unfold state_consume_request_body, make_server_connection, handle_protocol_error_connect, rejs, rejq.
+  destruct s as [cs ss qb sb qf sf qs rs q1 q2 qc sc er lv]. cbn in Hc. subst cs. cbn.
+  destruct (c_ok cfg); cbn.
+  - intros H; inversion H; subst; clear H. cbn. destruct (nonempty qb) eqn:NE; cbn;
+      repeat split; auto; intuition congruence.
+  - destruct ss; cbn; intros H; inversion H; subst; clear H; cbn; repeat split; auto; intuition congruence.
+Qed.
+
+(* ReqData / ReqEom in state_stream_request_body *)
+Lemma step_stream_request (s s' : st) e c :
+  client_state s = Streaming -> is_request_event e = true ->
+  handle_event s e = Some (s', c) ->
+  response_body_buf s' = response_body_buf s /\ server_state s' = server_state s
+  /\ ~ rejs c /\ ~ rejq c
+  /\ (o_store cfg = false -> request_body_buf s' = request_body_buf s)
+  /\ match e with
+     | ReqData _ => client_state s' = Streaming /\ client_content c = []
+     | _ => client_state s' = Done /\ (o_store cfg = true -> request_body_buf s' = [])
+            /\ (server_state s <> Done -> client_content c = [])
+     end.
+Proof.
+  intros Hc He. unfold HttpBody.handle_event. rewrite He, Hc.
+  unfold state_stream_request_body, flow_done, rejs, rejq.
+  destruct e; try discriminate.
+  - destruct (match req_stream s with
+              | SCall => let '(q, r) := fq (fq_st s) d in (set_fq_st S s q, data_chunks r)
+              | _ => (s, [d])
+              end) as [s1 chunks] eqn:E1.
+    assert (F : response_body_buf s1 = response_body_buf s /\ server_state s1 = server_state s
+                /\ request_body_buf s1 = request_body_buf s /\ client_state s1 = Streaming).
+    { destruct (req_stream s); try (inversion E1; subst; auto).
+      destruct (fq (fq_st s) d) as [q r]. inversion E1; subst. destruct s; cbn in *; auto. }
+    destruct F as (F1 & F2 & F3 & F4).
+    rewrite relay_chunks_eq. intros H; inversion H; subst; clear H.
+    split; [destruct (o_store cfg); destruct s1; cbn in *; auto|].
+    split; [destruct (o_store cfg); destruct s1; cbn in *; auto|].
+    split; [apply not_in_map_data; congruence|]. split; [apply not_in_map_data; congruence|].
+    split; [intros ->; auto|].
+    split; [destruct (o_store cfg); destruct s1; cbn in *; auto|].
+    unfold client_content. clear. induction chunks; cbn; auto.
+  - destruct (match req_stream s with
+              | SCall => let '(q, r) := fq (fq_st s) [] in (set_fq_st S s q, flush_chunks r)
+              | _ => (s, [])
+              end) as [s1 chunks] eqn:E1.
+    assert (F : response_body_buf s1 = response_body_buf s /\ server_state s1 = server_state s
+                /\ request_body_buf s1 = request_body_buf s /\ client_state s1 = Streaming).
+    { destruct (req_stream s); try (inversion E1; subst; auto).
+      destruct (fq (fq_st s) []) as [q r]. inversion E1; subst. destruct s; cbn in *; auto. }
+    destruct F as (F1 & F2 & F3 & F4).
+    rewrite relay_chunks_eq.
+    assert (NI : forall x, (forall d, x <> CSend Server (MData d)) ->
+                 x <> CHook HRequest -> x <> CSend Server MEom -> x <> CDrop -> x <> CSend Client MEom ->
+                 forall tl, (tl = [] \/ tl = [CDrop; CSend Client MEom]) ->
+                 ~ In x (map (fun c0 => CSend Server (MData c0)) chunks ++ [CHook HRequest; CSend Server MEom] ++ tl)).
+    { intros x H1 H2 H3 H4 H5 tl Htl HI. apply in_app_or in HI. destruct HI as [HI|HI].
+      - revert HI. apply not_in_map_data; auto.
+      - cbn in HI. destruct Htl as [->| ->]; cbn in HI; intuition congruence. }
+    destruct (o_store cfg) eqn:ST; destruct s1 as [cs1 ss1 qb1 sb1 qf1 sf1 qs1 rs1 q11 q21 qc1 sc1 er1 lv1];
+      cbn in *; subst; destruct (server_state s) eqn:SS; cbn;
+      intros H; inversion H; subst; clear H; cbn;
+      (split; [reflexivity|]); (split; [reflexivity|]);
+      (split; [apply NI; auto; congruence|]); (split; [apply NI; auto; congruence|]);
+      (split; [intros; congruence|]); (split; [reflexivity|]); (split; [auto; intros; congruence|]);
+      try (intros NE; congruence);
+      intros _; unfold client_content; rewrite filter_app;
+      (replace (filter is_client_content (map (fun c0 => CSend Server (MData c0)) chunks)) with (@nil cmd)
+        by (clear; induction chunks; cbn; auto)); reflexivity.
+Qed.
+
+(* events in state_errored are swallowed *)
+Lemma step_request_errored (s : st) e :
+  client_state s = Errored -> is_request_event e = true -> handle_event s e = Some (s, []).
+Proof. intros Hc He. unfold HttpBody.handle_event. rewrite He, Hc. reflexivity. Qed.
+
+(* ---------------- response events ---------------- *)
+
+Lemma send_response_spec already (s : st) :
+  let '(s', c) := send_response S already s in
+  server_state s' = Done /\ client_state s' = client_state s
+  /\ request_body_buf s' = request_body_buf s /\ response_body_buf s' = response_body_buf s
+  /\ req_stream s' = req_stream s /\ fq_st s' = fq_st s /\ req_content s' = req_content s
+  /\ resp_content s' = resp_content s
+  /\ ~ rejq c /\ ~ rejs c /\ server_content c = [].
+Proof.
+  unfold send_response, flow_done, rejq, rejs.
+  destruct s as [cs ss qb sb qf sf qs rs q1 q2 qc sc er lv]. cbn.
+  destruct already; destruct cs; cbn; try destruct sc as [[|x y]|]; cbn; repeat split; auto; intuition congruence.
+Qed.
+
+(* RespHeaders in state_wait_for_response_headers *)
+Lemma step_wait_response_headers (s s' : st) fr c :
+  server_state s = WaitHeaders -> response_body_buf s = [] ->
+  handle_event s (RespHeaders fr) = Some (s', c) ->
+  response_body_buf s' = [] /\ request_body_buf s' = request_body_buf s /\ ~ rejq c /\ server_content c = []
+  /\ ((server_state s' = Errored /\ client_state s' = Errored /\ rejs c /\ client_content c = [])
+      \/ (~ rejs c /\ client_state s' = client_state s
+          /\ ((server_state s' = Consume /\ client_content c = [])
+              \/ (server_state s' = Streaming /\ client_content c = [CSend Client (MHeaders false)])))).
+Proof.
+  intros Hc Hb. unfold HttpBody.handle_event. cbn [is_request_event]. rewrite Hc.
+  unfold state_wait_for_response_headers.
+  remember (set_resp_framing S s (Some fr)) as s0 eqn:E0.
+  assert (B0 : response_body_buf s0 = [] /\ request_body_buf s0 = request_body_buf s
+               /\ client_state s0 = client_state s) by (subst s0; destruct s; cbn in *; auto).
+  clear E0. destruct B0 as (B0 & R0 & C0).
+  destruct (if end_stream_of fr then Some (false, s0, [])
+            else check_body_size false s0) as [[[b s1] c1]|] eqn:EC; [|discriminate].
+  assert (CASES :
+    (b = true /\ client_state s1 = Errored /\ server_state s1 = Errored /\ rejs c1 /\ ~ rejq c1
+     /\ server_content c1 = [] /\ client_content c1 = []
+     /\ request_body_buf s1 = request_body_buf s /\ response_body_buf s1 = [])
+    \/ (b = false /\ c1 = [] /\ request_body_buf s1 = request_body_buf s /\ response_body_buf s1 = []
+        /\ client_state s1 = client_state s)).
+  { destruct (end_stream_of fr).
+    - inversion EC; subst. right. auto.
+    - apply check_body_size_resp_cases in EC.
+      destruct EC as [(-> & -> & -> & _)|[(-> & _ & -> & ->)|[(-> & -> & -> & _)|(_ & NE & _)]]].
+      + right; auto.
+      + right. repeat split; auto; destruct s0; cbn in *; auto.
+      + left. pose proof (abort_body_resp s0) as AB. destruct (abort_body false s0) as [sa ca]. cbn [fst snd].
+        destruct AB as (A1 & A2 & A3 & A4 & A5 & A6 & A7 & A8 & _). repeat split; auto; congruence.
+      + rewrite B0 in NE. discriminate. }
+  destruct CASES as [(-> & C1 & C2 & C3 & C4 & C5 & C6 & C7 & C8)|(-> & -> & C5 & C6 & C7)].
+  - intros H; inversion H; subst. repeat split; auto.
+  - cbn [app].
+    remember (hook_responseheaders S cfg s1) as s2 eqn:E2.
+    assert (B2 : response_body_buf s2 = [] /\ request_body_buf s2 = request_body_buf s
+                 /\ client_state s2 = client_state s).
+    { subst s2. unfold hook_responseheaders. destruct (p_resp cfg); destruct s1; cbn in *; auto. }
+    clear E2. destruct B2 as (B2 & R2 & K2).
+    unfold start_response_stream, rejq, rejs.
+    destruct (stream_truthy (resp_stream s2) && negb (end_stream_of fr));
+      intros H; inversion H; subst; clear H; destruct s2; cbn in *;
+      (split; [auto|]); (split; [auto|]); (split; [intuition congruence|]); (split; [reflexivity|]);
+      right; (split; [intuition congruence|]); (split; [auto|]); [right|left]; split; reflexivity.
+Qed.
+
+(* RespData in state_consume_response_body *)
+Lemma step_consume_response_data (s s' : st) d c :
+  server_state s = Consume ->
+  handle_event s (RespData d) = Some (s', c) ->
+  let buf := response_body_buf s ++ d in
+  request_body_buf s' = request_body_buf s /\ ~ rejq c /\ server_content c = []
+  /\ ((server_state s' = Consume /\ client_state s' = client_state s /\ response_body_buf s' = buf /\ c = []
+       /\ (nonempty buf = true -> truthy_opts = true -> over (parse_size (o_limit cfg)) (blen buf) = false))
+      \/ (server_state s' = Errored /\ client_state s' = Errored /\ rejs c /\ client_content c = []
+          /\ response_body_buf s' = buf /\ flow_error s' = true /\ flow_live s' = false)
+      \/ (server_state s' = Streaming /\ client_state s' = client_state s /\ ~ rejs c
+          /\ response_body_buf s' = (if o_store cfg then buf else [])
+          /\ c = [CSend Client (MHeaders false); CSend Client (MData buf)]
+          /\ resp_stream s' = STrue /\ fs_st s' = fs_st s /\ resp_content s' = resp_content s
+          /\ nonempty buf = true /\ over (parse_size (o_limit cfg)) (blen buf) = false
+          /\ over (parse_size (o_stream cfg)) (blen buf) = true)).
+Proof.
+  intros Hc. unfold HttpBody.handle_event. cbn [is_request_event]. rewrite Hc.
+  unfold state_consume_response_body.
+  remember (set_respbuf S s (response_body_buf s ++ d)) as s0 eqn:E0.
+  assert (B0 : response_body_buf s0 = response_body_buf s ++ d) by (subst s0; destruct s; reflexivity).
+  assert (R0 : request_body_buf s0 = request_body_buf s /\ client_state s0 = client_state s
+               /\ fs_st s0 = fs_st s /\ resp_content s0 = resp_content s) by (subst s0; destruct s; cbn; auto).
+  assert (S0 : server_state s0 = Consume) by (subst s0; destruct s; cbn in *; auto).
+  clear E0. destruct R0 as (R0 & K0 & F1 & F2).
+  destruct (check_body_size false s0) as [[[b s1] c1]|] eqn:EC; [|discriminate].
+  intros H; inversion H; subst s1 c1; clear H. cbn zeta.
+  apply check_body_size_resp_cases in EC.
+  destruct EC as [(-> & -> & -> & SIDE)|[(-> & E & -> & ->)|[(-> & -> & -> & x & EX & POS & OV)|(-> & NE & OL & OT & -> & ->)]]].
+  - split; [auto|]. split; [unfold rejq; cbn; tauto|]. split; [reflexivity|].
+    left. repeat split; auto; try (destruct s0; cbn in *; congruence).
+    intros NE TR. unfold resp_expected in SIDE. rewrite B0, NE in SIDE.
+    apply (SIDE _ eq_refl); auto. apply nonempty_true_blen; auto.
+  - split; [destruct s0; cbn in *; auto|]. split; [unfold rejq; cbn; tauto|]. split; [reflexivity|].
+    left. rewrite B0 in E. rewrite E. repeat split; try (destruct s0; cbn in *; congruence).
+  - pose proof (abort_body_resp s0) as AB. destruct (abort_body false s0) as [sa ca]. cbn [fst snd].
+    destruct AB as (A1 & A2 & A3 & A4 & A5 & A6 & A7 & A8 & A9 & A10).
+    split; [congruence|]. split; [auto|]. split; [auto|].
+    right; left. repeat split; auto; try congruence.
+  - rewrite B0 in *. cbn zeta.
+    split; [destruct (o_store cfg); destruct s0; cbn in *; auto|].
+    split; [unfold rejq; cbn; intuition congruence|]. split; [reflexivity|].
+    right; right.
+    split; [destruct (o_store cfg); destruct s0; reflexivity|].
+    split; [destruct (o_store cfg); destruct s0; cbn in *; auto|].
+    split; [unfold rejs; cbn; intuition congruence|].
+    split; [destruct (o_store cfg); destruct s0; cbn in *; auto|].
+    split; [reflexivity|].
+    repeat split; auto; destruct (o_store cfg); destruct s0; cbn in *; auto.
+Qed.
+
+(* RespEom in state_consume_response_body *)
+Lemma step_consume_response_eom (s s' : st) c :
+  server_state s = Consume ->
+  handle_event s RespEom = Some (s', c) ->
+  request_body_buf s' = request_body_buf s /\ client_state s' = client_state s
+  /\ ~ rejs c /\ ~ rejq c /\ server_content c = []
+  /\ response_body_buf s' = [] /\ server_state s' = Done
+  /\ resp_content s' = Some (response_body_buf s)
+  /\ data_to Client c = (if nonempty (response_body_buf s) then [response_body_buf s] else []).
+Proof.
+  intros Hc. unfold HttpBody.handle_event. cbn [is_request_event]. rewrite Hc.
+  unfold state_consume_response_body, send_response, flow_done, rejq, rejs.
+  destruct s as [cs ss qb sb qf sf qs rs q1 q2 qc sc er lv]. cbn in Hc. subst ss. cbn.
+  destruct (nonempty sb) eqn:NE; destruct cs; cbn; intros H; inversion H; subst; clear H; cbn;
+    repeat split; auto; intuition congruence.
+Qed.
+
+(* RespData / RespEom in state_stream_response_body *)
+Lemma step_stream_response (s s' : st) e c :
+  server_state s = Streaming -> is_request_event e = false ->
+  handle_event s e = Some (s', c) ->
+  request_body_buf s' = request_body_buf s /\ client_state s' = client_state s
+  /\ ~ rejs c /\ ~ rejq c /\ server_content c = []
+  /\ (o_store cfg = false -> response_body_buf s' = response_body_buf s)
+  /\ match e with
+     | RespData _ => server_state s' = Streaming
+     | _ => server_state s' = Done /\ (o_store cfg = true -> response_body_buf s' = [])
+     end.
+Proof.
+  intros Hc He. unfold HttpBody.handle_event. rewrite He, Hc.
+  unfold state_stream_response_body.
+  destruct e; try discriminate.
+  - destruct (match resp_stream s with
+              | SCall => let '(q, r) := fs (fs_st s) d in (set_fs_st S s q, data_chunks r)
+              | _ => (s, [d])
+              end) as [s1 chunks] eqn:E1.
+    assert (F : request_body_buf s1 = request_body_buf s /\ client_state s1 = client_state s
+                /\ response_body_buf s1 = response_body_buf s /\ server_state s1 = Streaming).
+    { destruct (resp_stream s); try (inversion E1; subst; auto).
+      destruct (fs (fs_st s) d) as [q r]. inversion E1; subst. destruct s; cbn in *; auto. }
+    destruct F as (F1 & F2 & F3 & F4).
+    rewrite relay_chunks_eq. intros H; inversion H; subst; clear H.
+    split; [destruct (o_store cfg); destruct s1; cbn in *; auto|].
+    split; [destruct (o_store cfg); destruct s1; cbn in *; auto|].
+    split; [apply not_in_map_data; congruence|]. split; [apply not_in_map_data; congruence|].
+    split; [unfold server_content; clear; induction chunks; cbn; auto|].
+    split; [intros ->; auto|].
+    destruct (o_store cfg); destruct s1; cbn in *; auto.
+  - destruct (match resp_stream s with
+              | SCall => let '(q, r) := fs (fs_st s) [] in (set_fs_st S s q, flush_chunks r)
+              | _ => (s, [])
+              end) as [s1 chunks] eqn:E1.
+    assert (F : request_body_buf s1 = request_body_buf s /\ client_state s1 = client_state s
+                /\ response_body_buf s1 = response_body_buf s /\ server_state s1 = Streaming).
+    { destruct (resp_stream s); try (inversion E1; subst; auto).
+      destruct (fs (fs_st s) []) as [q r]. inversion E1; subst. destruct s; cbn in *; auto. }
+    destruct F as (F1 & F2 & F3 & F4).
+    rewrite relay_chunks_eq.
+    match goal with |- context [send_response S true ?x] =>
+      pose proof (send_response_spec true x) as SR; destruct (send_response S true x) as [s4 c2] end.
+    destruct SR as (Q1 & Q2 & Q3 & Q4 & _ & _ & _ & _ & Q9 & Q10 & Q11).
+    intros H; inversion H; subst; clear H.
+    split; [rewrite Q3; destruct (o_store cfg); destruct s1; cbn in *; auto|].
+    split; [rewrite Q2; destruct (o_store cfg); destruct s1; cbn in *; auto|].
+    split; [intros HI; apply in_app_or in HI; destruct HI as [HI|HI]; auto; revert HI; apply not_in_map_data; congruence|].
+    split; [intros HI; apply in_app_or in HI; destruct HI as [HI|HI]; auto; revert HI; apply not_in_map_data; congruence|].
+    split; [rewrite server_content_app, Q11, app_nil_r; unfold server_content; clear; induction chunks; cbn; auto|].
+    split; [intros ST; rewrite ST in *; rewrite Q4; auto|].
+    split; [auto|]. intros ST; rewrite ST in *. rewrite Q4. destruct s1; reflexivity.
+Qed.
+
+Lemma step_response_errored (s : st) e :
+  server_state s = Errored -> is_request_event e = false -> handle_event s e = Some (s, []).
+Proof. intros Hc He. unfold HttpBody.handle_event. rewrite He, Hc. reflexivity. Qed.
 
 End Steps.
